@@ -109,7 +109,7 @@ Theorem C01_descriptors_inhabited :
 Proof. vm_compute. repeat split; reflexivity. Qed.
 
 (* hypotheses are satisfiable by real values: a ReadResponse (generated by the harness from the Go type) with a
-   DateTime off the 100 ns grid, an extension object with a registered body, a 2x3 SByte matrix in a DataValue with all
+   DateTime off the 100 ns tick, an extension object with a registered body, a 2x3 SByte matrix in a DataValue with all
    mask bits, a DataValue without a Variant (normalised to the allocated zero Variant), DiagnosticInfos *)
 Definition sample_ReadResponse : val :=
   VStruct [VPtr (Some (VStruct [VTime (Some (-9223372036854775808)); VInt 2147483648; VInt 2267030203;
@@ -127,7 +127,7 @@ Example C01_nonvacuous :
   rwf gen_reg ty_ReadResponse sample_ReadResponse = true /\
   val_eqb (rnorm gen_reg ty_ReadResponse sample_ReadResponse) sample_ReadResponse = false /\
   rnorm gen_reg (TCustom CDataValue) (VDataValue 36 None 0 (Some (-5396679310699336342)) 0 None 254)
-    = VDataValue 36 (Some zero_variant) 0 (Some (-5396679310699336300)) 0 None 254.
+    = VDataValue 36 (Some zero_variant) 0 (Some (-5396679310699336400)) 0 None 254.
 Proof. vm_compute. repeat split; reflexivity. Qed.
 
 (* executable statement "v encodes and the encoding decodes (consuming everything) to v' ", as a boolean so that
